@@ -66,6 +66,17 @@ class IntPtr:
         return "IntPtr(%s)" % (self.addr,)
 
 
+class PtrAddr:
+    """the (abstract, non-null, suitably aligned) address of a pointer, as an integer"""
+    __slots__ = ("ptr",)
+
+    def __init__(self, ptr):
+        self.ptr = ptr
+
+    def __repr__(self):
+        return "PtrAddr(%r)" % (self.ptr,)
+
+
 class FnPtr:
     __slots__ = ("inst",)
 
